@@ -254,6 +254,13 @@ def build_cases(rng, tier):
                   'files': {'answer.py': 'ERR = ValueError("prebuilt")\ndef g():\n    raise ERR\n'},
                   'steps': [{'entry': 'run', 'setup': True}, {'entry': 'call', 'fn': 'g'}, {'entry': 'call', 'fn': 'g'}],
                   'cls': 'ValueError', 'mro': mro_of('ValueError'), 'where': 'exec', 'line': 3, 'raise_file': 'answer.py'})
+    # the grader's own trace function, in force before the execution, under every tracer style and ending
+    for style in ('native', 'calls', 'coverage', 'none', None):
+        for tag, prog, cls in (('ends', 'x = 1\nprint(x)\n', None), ('raises', 'x = 1\ny = x / 0\n', 'ZeroDivisionError'),
+                               ('exits', 'import sys\nsys.exit(2)\n', 'SystemExit')):
+            cases.append({'tag': 'grader-trace:%s:%s' % (style, tag), 'entry': 'history', 'files': {'answer.py': prog + 'def g():\n    return 1\n'},
+                          'steps': [{'entry': 'run', 'tracer': style, 'pre_trace': True}, {'entry': 'call', 'fn': 'g', 'tracer': style, 'pre_trace': True}],
+                          'chosen': [], 'cls': cls, 'mro': mro_of(cls) if cls else None, 'where': 'exec', 'line': None, 'raise_file': 'answer.py'})
     # nested executions: an instructor helper in the student namespace calls back into the sandbox
     cases.append({'tag': 'nested-call', 'entry': 'history',
                   'files': {'answer.py': 'def inner():\n    print("in")\n    return 1\nprint("outer")\n'},
